@@ -1,6 +1,64 @@
 import PdeVerif.Json
+import PdeVerif.Model.Adaptive
+import PdeVerif.Drv.C07
 namespace PdeVerif.Drv.C08
-open Lean PdeVerif
+open Lean PdeVerif PdeVerif.Interrupts PdeVerif.Controller PdeVerif.StepMaps
 
-def handlers : List (String × Handler) := []
+/-
+c08.adaptive - a run with an adaptive stepper (`Model/Adaptive.lean`: `runAdaptiveSpec`)
+{"mode":"Q"|"F", "dt":x, "t_start":x, "t_end":x, "eps":x, "dt_min":x, "u0":x, "fuel":n,
+ "attempts":[[accepted?, x]..]   -- one entry per attempt of the stepper's inner loop: error_rel <= 1, adjust_dt(..)
+ "trackers":[..as c07.run..]}
+the simulated state is that of u' = 1 (`flow u t s = u + (s - t)`).
+answer: as c07.run + "dt_final" (last solver.info["dt"]) + "attempts_left"
+-/
+
+section
+variable {K : Type} [Add K] [Sub K] [Mul K] [Div K] [Neg K] [NatCast K] [IntCast K]
+variable [LT K] [DecidableLT K] [LE K] [DecidableLE K] [HasFloor K]
+
+def parseAttempt (getK : Json → Except String K) (j : Json) : Except String (Attempt K) := do
+  let a ← j.getArr?
+  match a.toList with
+  | [b, x] => pure { accept := ← getB b, dtNext := ← getK x }
+  | _ => throw "bad attempt entry"
+
+def adaptiveJson (getK : Json → Except String K) (putK : K → Json) (j : Json) : Except String Json := do
+  let dt ← getK (← fld j "dt")
+  let tStart ← getK (← fld j "t_start")
+  let tEnd ← getK (← fld j "t_end")
+  let eps ← getK (← fld j "eps")
+  let dtMin ← getK (← fld j "dt_min")
+  let u0 ← getK (← fld j "u0")
+  let fuel ← fldN j "fuel"
+  let att ← getL (parseAttempt getK) (← fld j "attempts")
+  let specs ← getL (C07.parseTracker getK) (← fld j "trackers")
+  let s0 : SolverState K := some (u0, u0)
+  let rr := runAdaptiveSpec dt tStart tEnd eps dtMin
+    (fun (s : SolverState K) t e => s.map (fun p => (p.1 + (e - t), p.2))) att s0 specs fuel
+  let r := rr.1
+  let putS : SolverState K → Json := fun s => match s with
+    | none => Json.str "ConvergenceError"
+    | some p => putK p.1
+  if r.trackers.any (fun tr => C07.isBroken tr.sched) then throw "geometric search out of fuel"
+  let putO : Option K → Json := fun o => match o with | none => Json.str "inf" | some x => putK x
+  pure (Json.mkObj [
+    ("t_final", putK r.tFinal), ("steps", toJson r.steps), ("state", putS r.state),
+    ("exit", Json.str (C07.exitTag r.exit)),
+    ("stop_reason", Json.str r.exit.reason), ("successful", toJson r.exit.successful),
+    ("iters", toJson r.iters), ("dt_final", putK rr.2),
+    ("trace", Json.arr (r.trace.map (fun e => Json.arr #[toJson e.1, putK e.2.1, putS e.2.2])).toArray),
+    ("trackers", Json.arr (r.trackers.map (fun tr => Json.mkObj [
+      ("calls", toJson tr.calls), ("times", Json.arr (tr.times.map putK).toArray),
+      ("frames", Json.arr (tr.frames.map putS).toArray), ("finalized", toJson tr.finalized),
+      ("due", putO tr.due)])).toArray)])
+
+end
+
+def adaptive (j : Json) : Except String Json := do
+  let mode ← fldS j "mode"
+  if mode == "Q" then adaptiveJson (K := Rat) getQ jQ j
+  else adaptiveJson (K := Float) getF jF j
+
+def handlers : List (String × Handler) := [("c08.adaptive", adaptive)]
 end PdeVerif.Drv.C08
